@@ -1,4 +1,4 @@
-use html5ever::{tendril::StrTendril, Attribute, LocalName};
+use html5ever::{namespace_url, ns, tendril::StrTendril, Attribute, LocalName};
 use phf::{phf_map, phf_set, Map, Set};
 use wildmatch::WildMatch;
 
@@ -232,8 +232,11 @@ impl SanitizerConfig {
                         .as_ref()
                         .map(|list| list.is_override())
                         .unwrap_or_default();
+                    // The allow-list of the Matrix specification only contains HTML elements, elements
+                    // of the same name in a foreign namespace (SVG, MathML) are not part of it.
                     let mode_allowed = !list_is_override
                         && self.use_strict()
+                        && name.ns == ns!(html)
                         && ALLOWED_ELEMENTS_STRICT.contains(element_name);
 
                     if !list_allowed && !mode_allowed {
